@@ -1,0 +1,39 @@
+// Verification hook (only compiled with `--cfg cadence_verif`; see /verif/DESIGN.md section 7).
+//
+// `sinks/queuing.rs` takes `thread` from here instead of `std` when the guard is on. In an
+// ordinary build this is a pure pass-through to `std::thread`. Under the Kani verifier
+// (`cfg(kani)`, which has no threads) `spawn` runs the closure inline, i.e. the "background
+// thread" runs to its next blocking point at once, and counts how often it was called.
+
+pub(crate) mod thread {
+    #[cfg(not(kani))]
+    #[allow(unused_imports)]
+    pub use std::thread::{spawn, yield_now, JoinHandle};
+
+    #[cfg(kani)]
+    #[allow(unused_imports)]
+    pub use self::sequential::{spawn, yield_now, JoinHandle};
+
+    #[cfg(kani)]
+    pub(crate) mod sequential {
+        use std::marker::PhantomData;
+        use std::sync::atomic::{AtomicUsize, Ordering};
+
+        /// number of `spawn` calls so far
+        pub static SPAWNED: AtomicUsize = AtomicUsize::new(0);
+
+        pub struct JoinHandle<T>(PhantomData<T>);
+
+        pub fn spawn<F, T>(f: F) -> JoinHandle<T>
+        where
+            F: FnOnce() -> T + Send + 'static,
+            T: Send + 'static,
+        {
+            SPAWNED.fetch_add(1, Ordering::SeqCst);
+            let _ = f();
+            JoinHandle(PhantomData)
+        }
+
+        pub fn yield_now() {}
+    }
+}
